@@ -4,6 +4,7 @@ package interp
 
 import (
 	"fmt"
+	"net/url"
 	"sort"
 	"strings"
 
@@ -434,6 +435,10 @@ func (p *pathCtx) model() (map[string]interface{}, error) {
 // url.Parse accepts, injectively, preserving host (dis)equalities.
 func renameIRI(s, host string, consts map[string]bool) string {
 	if consts[s] {
+		return s
+	}
+	// a model string that really is an absolute URL in normal form stays verbatim
+	if u, err := url.Parse(s); err == nil && u.Scheme != "" && u.String() == s && (u.Host == host || u.Host == "") {
 		return s
 	}
 	return "https://" + encHost(host) + "/" + hexStr(s)
